@@ -55,4 +55,5 @@ props! {
     "X01" => x01,
     "X04" => x04,
     "X05" => x05,
+    "X02" => x02,
 }
